@@ -143,6 +143,7 @@ class Inlining:
         self.used = set()
         self.spent = 0
         self.budget = 60000
+        self.self_methods = {}   # private methods of the class under analysis: name -> key in funcs ('meth:<name>')
 
     def nf(self, name, argshapes=()):
         key = (name, argshapes)
@@ -154,6 +155,8 @@ class Inlining:
         try:
             nz = Normalizer(self.funcs[name], self.shapes, self.known, None, self.helper_rules, self.global_names)
             nz.inliner = self
+            if name.startswith('meth:'):
+                nz.self_methods = self.self_methods
             # a helper without a documented shape contract takes the shapes of the arguments it is called with
             for p_, sh in zip(nz.params, argshapes):
                 if sh is not None and p_ not in nz.pshape:
@@ -229,6 +232,7 @@ class Normalizer:
         self.lam_level = 0
         self.inliner = None      # optional Inlining(...) : module-level helpers are replaced by their (loop-free, effect-free) normal form
         self.attr_shapes = {}    # shapes of attributes of the first parameter (`self.<name>`), when a rule knows them
+        self.self_methods = {}   # private methods of the same class: self._h(x) is replaced by the helper's normal form when loop- and effect-free
         self.module_aliases = set()   # global names bound to the kernel modules: alias.f(x) is the call f(x)
 
     def refold(self, t, memo=None):
@@ -965,6 +969,10 @@ class Normalizer:
             if recv[0] == 'g' and recv[1] in self.module_aliases and f.attr in self.module_funcs:
                 return self.fn_call(f.attr, args, kwargs)
             m = f.attr
+            if recv == ('p', 0) and m in self.self_methods and self.inliner is not None and not kwargs:
+                t = self.inliner.instantiate(self.self_methods[m], (recv,) + args, self)
+                if t is not None:
+                    return t
             if m == 'copy' and not args:
                 return recv                               # N2
             if m == 'astype' and len(args) == 1 and args[0] == ('g', 'float'):
